@@ -186,7 +186,7 @@ INFO['C02'] = {
     'bounds': 'per-layer obligations over the probe backend (uninterpreted function of the coordinate, call recorder): '
               'N and M independently in 1..4 (quick: 5 pairs, thorough: 16), coordinate scalars int/unsigned/size_t/float/double '
               'where the layer admits them; every coordinate value (NaN excluded), every configuration value; the vector type itself (covfie::array::array, sizes 1..4: fill / C-array / variadic / copy constructors, element access, size, iteration; a constant backend configured through the fill constructor); '
-              'composition for deeper stacks by induction over the stack (stated) plus fixed stacks of depth 3-5 checked directly; pairwise adjacency over the REAL layers: each of clamp, backup, shuffle, covariant_cast, dereference, nearest_neighbour directly above each of strided, Morton (both variants), Hilbert, clamp, backup, shuffle, cast, dereference (each over strided<array>, 3x2 storage, symbolic contents/configuration) and constant; linear above each of those (bit-identical to linear above a plain row-major array of the values the layer reports; every cell, quarter-cell offsets, symbolic contents); affine above nearest/linear over clamped layouts (symbolic matrix and coordinate, |.|<=8): W<X>.at equals the definition of W applied to the view X itself gives of the same storage',
+              'composition for deeper stacks by induction over the stack (stated) plus fixed stacks of depth 3-5 checked directly; pairwise adjacency over the REAL layers: each of clamp, backup, shuffle, covariant_cast, dereference, nearest_neighbour directly above each of strided, Morton (both variants), Hilbert, clamp, backup, shuffle, cast, dereference (each over strided<array>, 3x2 storage, symbolic contents/configuration) and constant; linear above each of those (bit-identical to linear above a plain row-major array of the values the layer reports; every cell, quarter-cell offsets, symbolic contents; 2-D over all ten kinds, 1-D/3-D/4-D over strided, Morton (both), shuffle, clamp, backup on 2x3x2x2 storage); affine above nearest/linear over clamped layouts (symbolic matrix and coordinate, |.|<=8): W<X>.at equals the definition of W applied to the view X itself gives of the same storage',
     'outside': 'N or M above 4; NaN coordinates; stacks deeper than 5 (covered only by the induction argument)',
     'cuts': 'probe backend = uninterpreted function per output component; equality of results is bit-for-bit',
     'assumptions': ['a layer that treats its backend as an uninterpreted function of the coordinate cannot depend on what lies beneath (compositionality, stated)'],
@@ -311,6 +311,14 @@ def adjacency_units(tier, ws=None):
         for k, kn in enumerate(ADJ_K):
             U += unit(f'c02_adj_linear_over_{kn}', 'c02_adjacent.cpp', f'adj_linear_h<{k}>()', sites=[1], extra=['-mbmi2'] if k == 9 else (),
                       weight=40 if k == 4 else 5, cfg={'max_paths': 20000})
+    if ws is None or 'linear' in ws:
+        # ... and in 1, 3 and 4 dimensions (one code path of linear per dimensionality, a generic one from 4 on)
+        for n in (1, 3, 4):
+            for k, kn in enumerate(['strided', 'mortonport', 'shuffle', 'clamp', 'backup', 'mortonpdep']):
+                if n == 1 and k in (2, 5) and tier != 'thorough':
+                    continue
+                U += unit(f'c02_adj_linear{n}d_over_{kn}', 'c02_adjacent.cpp', f'adj_linearN_h<{n},{k}>()', sites=[1], extra=['-mbmi2'] if k == 5 else (),
+                          weight=20 if n == 1 else 5, cfg={'max_paths': 20000}, flavours=('rel', 'dbg') if (n == 3 and k == 2) else ('rel',))
     if ws is None or 'affine' in ws:
         # affine above Y == the view of Y at A c + t (symbolic matrix, coordinate, contents)
         for y, yn in enumerate(['nn_clamp_strided', 'linear_clamp_strided', 'nn_clamp_morton', 'linear_clamp_hilbert']):
@@ -367,7 +375,7 @@ INFO['C03'] = {
               'stored scalar each float/double; exactly 2^N backend queries at i+bits(n); hull clause solved for N<=2; cell choice '
               'bit-precise for 0<=x<2^23 (float) / 2^52 (double), N<=3; lattice exactness at the 2^N corners of concrete cells '
               '(5,7,2,3) with all finite stored values, N<=3 quick / 4 thorough; the same identity over real array storage '
-              '(linear<strided<array>>, grids of 2-3 cells per axis quick / up to 5 thorough, symbolic cell incl. the last one). Rounding clause: op-count bound from the IR '
+              '(linear<strided<array>>, grids of 2-3 cells per axis quick / up to 5 thorough, symbolic cell incl. the last one). linear directly above every other shipped layer kind (1-4 dimensions, array-backed, every cell at quarter offsets, symbolic contents): bit-identical to linear above a plain row-major array of the values that layer reports. Rounding clause: op-count bound from the IR '
               '(fmul/fadd counts reported per unit in fp_ops), not solved.',
     'outside': 'overflow/underflow/NaN in the rounding clause; non-default rounding modes; stored values that overflow the coordinate precision; N>5',
     'cuts': 'REAL mode: fptoui/trunc of an input-shaped term i+a rewrite to i (true fact about truncation of non-negative reals); probe backend (UF)',
@@ -426,6 +434,8 @@ def units_C03(tier, seed):
                   flavours=('rel', 'dbg') if (n, m) == (2, 1) else ('rel',), weight=ext ** n * 3)
     if th:
         U += unit('c03_lattice_origin_2_2', H, 'lin_lattice_h<2,2,float,float,0,0,0,0>()', 'BITS', sites=[1], weight=100)
+    # linear over every other layer kind, in 1-4 dimensions (shared with C02): the same interpolant whatever lies beneath
+    U += [u for u in adjacency_units(tier, ['linear'])]
     return U
 
 
